@@ -63,6 +63,42 @@ theorem Cells.setForf (h : Cells F Q sh a) (c : Nat) (x : ℚ) :
     Cells F Q ((cForf c, TimeCell.enc x) :: sh.filter (·.1 != cForf c)) { a with forf := upd a.forf c x } := by
   cells_store
 
+/-- `lookup` in a list from which the entries of one cell have been removed -/
+theorem lookup_filter (l : List (Nat × Val)) (k k' : Nat) :
+    lookup (l.filter (·.1 != k')) k = if k = k' then Val.none else lookup l k := by
+  by_cases h : k = k'
+  · subst h
+    rw [if_pos rfl]
+    unfold lookup
+    have : (l.filter (·.1 != k)).find? (·.1 == k) = none := by
+      rw [List.find?_eq_none]
+      intro x hx
+      have := (List.mem_filter.mp hx).2
+      simpa using this
+    rw [this]; rfl
+  · rw [if_neg h, TimerK.lookup_filter_ne _ _ _ (Ne.symm h)]
+
+/-- the cells are read through `lookup` only -/
+theorem Cells.of_lookup {sh' : List (Nat × Val)} (h : Cells F Q sh a) (heq : ∀ k, lookup sh' k = lookup sh k) :
+    Cells F Q sh' a := by
+  refine ⟨?_, ?_, ?_, ?_, ?_, ?_, ?_, ?_, ?_⟩
+  · rw [heq]; exact h.c0
+  · rw [heq]; exact h.c1
+  · intro f hf; rw [heq]; exact h.cc f hf
+  · intro f hf; rw [heq]; exact h.cb f hf
+  · intro f hf; rw [heq]; exact h.cq f hf
+  · intro f hf; rw [heq]; exact h.cd f hf
+  · intro f hf; rw [heq]; exact h.ch f hf
+  · intro f hf; rw [heq]; exact h.cu f hf
+  · intro f hf; rw [heq]; exact h.cf f hf
+
+/-- two lists of cells built from the same stores (in the same order) answer every `lookup` alike -/
+macro "same_lookups" : tactic => `(tactic| (
+  intro k
+  dsimp only
+  simp only [TimerK.lookup_cons, lookup_filter, optVal]
+  split_ifs <;> first | rfl | simp_all))
+
 /-- the cells only say something about the attribute fields of a configuration -/
 theorem Cells.congr {a' : A} (h : Cells F Q sh a) (h0 : a'.recv = a.recv) (h1 : a'.cur = a.cur) (h2 : a'.cnt = a.cnt)
     (h3 : a'.byt = a.byt) (h4 : a'.ccnt = a.ccnt) (h5 : a'.dfc = a.dfc) (h6 : a'.hol = a.hol) (h7 : a'.forf = a.forf) :
